@@ -394,3 +394,8 @@ def check(rep, tier, replay=None):
     import c10
     rep.rule("N5", "colwise_norm: sparse branch visits every outer vector, indexes by the iterator's column, squares, takes the root; dense branch is colwise().norm()", minimum=3)
     c10.check_n5(rep, fe.ast_dumps(["colwise_norm"]))
+
+    # with numerical differentiation the Jacobian handed to the solver comes from dr_numerical: a collapsing finite-difference step gives a zero
+    # column and a false Ftol/Ptol far from the minimiser (rule L7; the executor lives in props/c08.py)
+    import c08
+    c08.check_p4(rep, A.index(fe.ast_dump("dr_numerical")), rule_id="L7", first_order_only=True)
